@@ -812,21 +812,21 @@ def selftest():
 
 
 SUBCHECKS = [
-    Subcheck("extract", extract_cases, check_extract, classify_extract, quick=1200, thorough=45000,
+    Subcheck("extract", extract_cases, check_extract, classify_extract, quick=3600, thorough=45000,
              journal=False),
-    Subcheck("remove", remove_cases, check_remove, classify_remove, quick=800, thorough=30000,
+    Subcheck("remove", remove_cases, check_remove, classify_remove, quick=2400, thorough=30000,
              journal=False),
-    Subcheck("reorder", reorder_cases, check_reorder, classify_reorder, quick=1200, thorough=45000,
+    Subcheck("reorder", reorder_cases, check_reorder, classify_reorder, quick=3600, thorough=45000,
              journal=False),
-    Subcheck("add", add_cases, check_add, classify_add, quick=1200, thorough=45000, journal=False),
-    Subcheck("combine", combine_cases, check_combine, classify_combine, quick=1000, thorough=40000,
+    Subcheck("add", add_cases, check_add, classify_add, quick=3600, thorough=45000, journal=False),
+    Subcheck("combine", combine_cases, check_combine, classify_combine, quick=3000, thorough=40000,
              journal=False),
-    Subcheck("copy_fields", copy_cases, check_copy, classify_copy, quick=800, thorough=30000,
+    Subcheck("copy_fields", copy_cases, check_copy, classify_copy, quick=2400, thorough=30000,
              journal=False),
-    Subcheck("copy_by_name", byname_cases, check_byname, classify_byname, quick=800, thorough=30000,
+    Subcheck("copy_by_name", byname_cases, check_byname, classify_byname, quick=2400, thorough=30000,
              journal=False),
-    Subcheck("split", split_cases, check_split, classify_split, quick=800, thorough=25000,
+    Subcheck("split", split_cases, check_split, classify_split, quick=2400, thorough=25000,
              journal=False),
-    Subcheck("compare", compare_cases, check_compare, classify_compare, quick=800, thorough=30000,
+    Subcheck("compare", compare_cases, check_compare, classify_compare, quick=2400, thorough=30000,
              journal=False),
 ]
